@@ -32,6 +32,7 @@ mod posgen;
 mod c01;
 mod c02;
 mod csearch;
+mod cgame;
 mod c10;
 mod c11;
 mod c12;
@@ -63,6 +64,7 @@ fn main() {
         "c17" => c01::run(&mut rng, n, &mut out, "c17"),
         "c02" => c02::run(&mut rng, n, &mut out),
         "tie" | "c05" | "c06" | "c07" => csearch::run(&mut rng, n, &mut out, prop),
+        "c08" | "c03" | "c04" | "c09" => cgame::run(&mut rng, n, &mut out, prop),
         "c10" => c10::run(&mut rng, n, &mut out, false),
         "c10x" => c10::run(&mut rng, n, &mut out, true),
         "c11" => c11::run(&mut rng, n, &mut out),
